@@ -572,10 +572,134 @@ func (d *driver) runMultiproof(w emitter, pid int, pr *proofProg) {
 			pf = p2
 			y2 := fs2[i][zs[i]]
 			yv[i] = &y2
+		case "forge":
+			// an adversarial prover (forgeProof below): it absorbs the statement exactly as the verifier will, lies about one
+			// claimed value, and builds g, h and the IPA proof as if the verifier ignored that claim
+			use := make([]bool, n)
+			for j := range use {
+				use[j] = true
+			}
+			lie := -1
+			eOwn := false
+			switch pt.To {
+			case "dupy", "dupy_first": // a repeated (commitment pointer, index) query: lie about the later (the first) occurrence, prove both as the true value
+				for a := 0; a < n && lie < 0; a++ {
+					for b := a + 1; b < n; b++ {
+						if cs[a] == cs[b] && zv[a] == zv[b] {
+							lie = b
+							if pt.To == "dupy_first" {
+								lie = a
+							}
+							break
+						}
+					}
+				}
+			case "drop0", "droplast", "dropz": // lie about one opening and leave it (all openings at its index) out of g, h and E
+				lie = 0
+				if pt.To == "droplast" {
+					lie = n - 1
+				}
+				use[lie] = false
+				if pt.To == "dropz" {
+					for j := range use {
+						if zv[j] == zv[lie] {
+							use[j] = false
+						}
+					}
+				}
+				eOwn = true
+			}
+			if lie < 0 {
+				continue
+			}
+			one := fr.One()
+			y2 := *yv[lie]
+			y2.Add(&y2, &one)
+			yv[lie] = &y2
+			pf = forgeProof(cfg, lbl, cs, fs, zv, yv, use, eOwn)
+			if pf == nil {
+				continue
+			}
 		case "none":
 		}
 		verify(k+1, pt, lbl, pf, cs, yv, zv)
 	}
+}
+
+// forgeProof is the adversary's prover, assembled from the library's public pieces: the Fiat-Shamir transcript is fed the STATEMENT
+// (commitments, indices and the claimed values ys - true or not) exactly as CheckMultiProof will feed it; g and h are built from the
+// polynomials fs over the openings selected by `use`, each treated as opened to its true value; the point absorbed as E is the honest
+// verifier's (sum of r^k/(t-z_k) C_k over all openings) or, with eOwn, the commitment to the adversary's own h.
+func forgeProof(cfg *ipa.IPAConfig, label string, cs []*banderwagon.Element, fs [][]fr.Element, zs []uint8, ys []*fr.Element, use []bool, eOwn bool) (out *multiproof.MultiProof) {
+	defer func() {
+		if recover() != nil {
+			out = nil
+		}
+	}()
+	L := multiproof.VerifLabels() // C z y D E t r domainsep
+	tr := common.NewTranscript(label)
+	tr.DomainSep(L[7])
+	n := len(cs)
+	for k := 0; k < n; k++ {
+		c := *cs[k]
+		tr.AppendPoint(&c, L[0])
+		var z fr.Element
+		z.SetUint64(uint64(zs[k]))
+		tr.AppendScalar(&z, L[1])
+		tr.AppendScalar(ys[k], L[2])
+	}
+	r := tr.ChallengeScalar(L[6])
+	pw := common.PowersOf(r, n)
+	g := make([]fr.Element, 256)
+	for k := 0; k < n; k++ {
+		if !use[k] {
+			continue
+		}
+		q := cfg.PrecomputedWeights.DivideOnDomain(zs[k], fs[k])
+		for j := range g {
+			var t fr.Element
+			t.Mul(&q[j], &pw[k])
+			g[j].Add(&g[j], &t)
+		}
+	}
+	D := cfg.Commit(g)
+	tr.AppendPoint(&D, L[3])
+	t := tr.ChallengeScalar(L[5])
+	h := make([]fr.Element, 256)
+	var E banderwagon.Element
+	E.SetIdentity()
+	for k := 0; k < n; k++ {
+		var z, den fr.Element
+		z.SetUint64(uint64(zs[k]))
+		den.Sub(&t, &z)
+		den.Inverse(&den)
+		den.Mul(&den, &pw[k])
+		if use[k] {
+			for j := range h {
+				var x fr.Element
+				x.Mul(&fs[k][j], &den)
+				h[j].Add(&h[j], &x)
+			}
+		}
+		var term banderwagon.Element
+		term.ScalarMul(cs[k], &den)
+		E.Add(&E, &term)
+	}
+	if eOwn {
+		E = cfg.Commit(h)
+	}
+	tr.AppendPoint(&E, L[4])
+	hg := make([]fr.Element, 256)
+	for j := range hg {
+		hg[j].Sub(&h[j], &g[j])
+	}
+	var EmD banderwagon.Element
+	EmD.Sub(&E, &D)
+	ip, err := ipa.CreateIPAProof(tr, cfg, EmD, hg, t)
+	if err != nil {
+		return nil
+	}
+	return &multiproof.MultiProof{IPA: ip, D: D}
 }
 
 // ---- IPA (C04) ----
@@ -808,6 +932,29 @@ func (d *driver) runCodec(w emitter, pid int, pr *proofProg) {
 			field = 0
 		}
 		set(be32(findX(rnd, "nonsubgroup")))
+	case "pt_nonsubgroup2", "pt_nonsubgroup4", "pt_nonsubgroupall", "pt_offcurve2", "pt_xplusp2", "pt_nonsub_same2":
+		// SEVERAL invalid point fields at once (a validation batched over the fields must not let them cancel out):
+		// 2 / 4 / all point fields starting at `field`, the same non-subgroup x twice, two off-curve x, two x+p
+		cnt := map[string]int{"pt_nonsubgroup2": 2, "pt_nonsubgroup4": 4, "pt_nonsubgroupall": lastField, "pt_offcurve2": 2, "pt_xplusp2": 2, "pt_nonsub_same2": 2}[pr.Bytes]
+		same := findX(rnd, "nonsubgroup")
+		f0 := field
+		for j := 0; j < cnt; j++ {
+			field = (f0 + j*3) % lastField // point fields only: 0 .. lastField-1
+			if pr.Bytes == "pt_nonsubgroupall" {
+				field = j
+			}
+			switch pr.Bytes {
+			case "pt_offcurve2":
+				set(be32(findX(rnd, "offcurve")))
+			case "pt_xplusp2":
+				x := new(big.Int).SetBytes(data[32*field : 32*field+32])
+				set(be32(x.Add(x, modP)))
+			case "pt_nonsub_same2":
+				set(be32(same))
+			default:
+				set(be32(findX(rnd, "nonsubgroup")))
+			}
+		}
 	case "pt_offcurve":
 		if field == lastField {
 			field = 0
@@ -863,6 +1010,9 @@ func (d *driver) runCodec(w emitter, pid int, pr *proofProg) {
 			if err == nil {
 				e["werr"] = ip.Write(&out) != nil
 				e["proof"] = ipaJSON(&ip)
+				// read the same bytes again into the object that now holds a proof
+				var out2 bytes.Buffer
+				e["reuse_ok"] = ip.Read(bytes.NewReader(out.Bytes())) == nil && ip.Write(&out2) == nil && bytes.Equal(out.Bytes(), out2.Bytes())
 			}
 		} else {
 			var mp multiproof.MultiProof
@@ -872,6 +1022,8 @@ func (d *driver) runCodec(w emitter, pid int, pr *proofProg) {
 				e["proof"] = proofJSON(&mp)
 				var mp2 multiproof.MultiProof
 				e["reread_equal"] = mp2.Read(bytes.NewReader(out.Bytes())) == nil && mp2.Equal(mp)
+				var out2 bytes.Buffer
+				e["reuse_ok"] = mp.Read(bytes.NewReader(out.Bytes())) == nil && mp.Write(&out2) == nil && bytes.Equal(out.Bytes(), out2.Bytes())
 			}
 		}
 		e["err"] = err != nil
